@@ -1,0 +1,23 @@
+//go:build verif
+
+package runtime
+
+// Contracts for the verification machinery in /verif (comment-only file;
+// excluded from every build without the "verif" tag).
+
+// C19: the label/string index shared by every runtime. labelMap and labels are
+// touched only under `mutex`; they are mutually inverse (so every string has one
+// index and every index one string) and append-only (indices handed out stay
+// valid: the rely/guarantee condition).
+//@ monitor mutex guards labelMap, labels invariant (forall s string :: inDom(labelMap, s) ==> 0 <= labelMap[s] && labelMap[s] < len(labels) && labels[labelMap[s]] == s) && (forall i int :: 0 <= i && i < len(labels) ==> inDom(labelMap, labels[i]) && labelMap[labels[i]] == i) rely len(labels) >= old(len(labels)) && (forall i int :: 0 <= i && i < old(len(labels)) ==> labels[i] == old(labels[i]))
+
+//@ func getKey
+//@   strings abstract
+//@   ensures 0 <= result && result < len(labels) && labels[result] == s && inDom(labelMap, s) && labelMap[s] == result
+//@   assigns heap
+
+//@ func (*index).IndexToString
+//@   strings abstract
+//@   requires 0 <= i && i < len(labels)
+//@   ensures result == old(labels[i])
+//@   assigns heap
